@@ -14,11 +14,16 @@ void h_release(void)
 {
     VmHeap *heap; NanoValue v;
     __verif_h.lvl = 2;
+#if VERIF_HKIND != 0
+    v.tag = VERIF_HKIND;     /* a constant for symbolic execution: the arms of the other kinds are pruned */
+#endif
     unsigned kc0 = __verif_h.kid_calls;
     vm_release(heap, v);
-    VERIF_COVER(IS_RC_TAG(v.tag) && __verif_rc0 == 1);
-    VERIF_COVER(IS_RC_TAG(v.tag) && __verif_rc0 >= 2);
-    VERIF_COVER(IS_RC_TAG(v.tag) && __verif_rc0 == 0);
+#if VERIF_HKIND != 0
+    VERIF_COVER(__verif_rc0 == 1);
+    VERIF_COVER(__verif_rc0 >= 2);
+    VERIF_COVER(__verif_rc0 == 0);
+#endif
 #if VERIF_HKIND == 7 || VERIF_HKIND == 8 || VERIF_HKIND == 10 || VERIF_HKIND == 12 || VERIF_HKIND == 11
     VERIF_COVER(__verif_h.kid_calls == kc0 + 1 && __verif_hk > 2);
 #endif
